@@ -336,7 +336,8 @@ def d1_counter(ctx):
         if f.qual == init.qual and isinstance(s, ast.Assign) and v is not None and _const_int(repo, f, v) == 0:
             seen_init += 1
             ck.ok('C18-D1', f.qual, 'counter initialised: %s' % norm_text(s))
-        elif f.qual == load.qual and isinstance(s, ast.AugAssign) and isinstance(s.op, ast.Add) and _const_int(repo, f, s.value) == 1:
+        elif f.qual == load.qual and ((isinstance(s, ast.AugAssign) and isinstance(s.op, ast.Add) and _const_int(repo, f, s.value) == 1)
+                                      or (U.step_of(s) is not None and U.is_self_attr(U.step_of(s)[0], NUMF) and U.step_of(s)[1] == 1)):
             seen_inc += 1
             ck.ok('C18-D1', f.qual, 'counter incremented: %s' % norm_text(s))
         else:
@@ -360,7 +361,7 @@ def d1_counter(ctx):
     inc_text = 'self.%s Add= 1' % NUMF
     for o in leaves:
         touching = [e for e in o.effects if re.match(r'self\.%s\b' % re.escape(NUMF), e) or ('self.%s' % NUMF) in e.split('=')[0]]
-        if touching == [inc_text]:
+        if touching == [inc_text] or touching in (['self.%s = self.%s + 1' % (NUMF, NUMF)], ['self.%s = 1 + self.%s' % (NUMF, NUMF)]):
             continue
         if touching:
             bad.append('[%s] -> %s' % (fmt_val(o.val), '; '.join(touching)))
@@ -377,7 +378,8 @@ def d1_counter(ctx):
     resp_fields = sorted({n.attr for n in ast.walk(nextloc.node) if U.is_self_attr(n)} - set(tr.methods))
     st = [n for n in cfg.stmt_nodes() if n.kind == 'stmt' and isinstance(n.stmt, ast.Assign) and any(
         U.is_self_attr(t) and t.attr in resp_fields for t in n.stmt.targets) and norm_text(n.stmt.value) == p0]
-    incn = [n for n in cfg.stmt_nodes() if n.kind == 'stmt' and isinstance(n.stmt, ast.AugAssign) and U.is_self_attr(n.stmt.target, NUMF)]
+    incn = [n for n in cfg.stmt_nodes() if n.kind == 'stmt' and ((isinstance(n.stmt, ast.AugAssign) and U.is_self_attr(n.stmt.target, NUMF))
+                                                                   or (U.step_of(n.stmt) is not None and U.is_self_attr(U.step_of(n.stmt)[0], NUMF)))]
     tests = [n for n in cfg.stmt_nodes() if n.kind == 'if']
     okorder = len(st) == 1 and all(cfg.find_path(cfg.entry, lambda m, t=t: m is t, edge_ok=F.normal, stop=lambda m: m is st[0]) is None
                                    for t in tests + incn)
